@@ -20,3 +20,41 @@ Theorem C08_newline_setting_commutes : forall nl l,
   realise nl l = flat_map (fun c => if c =? 10 then nl else [c]) (realise [10] l).
 Proof. exact realise_commute. Qed.
 Print Assumptions C08_newline_setting_commutes.
+
+(** Input side: the terminator 'newlines = auto' selects (Model/NlAuto.v: the tokenizer's census and the decision at
+    the end of tokenize(), both compared with the real run on every explored input). *)
+From UV Require Import Model.NlAuto Proofs.NlAutoProofs.
+
+(** whatever the census: auto selects a terminator no other one is more frequent than; a fixed setting ignores the census *)
+Theorem C08_auto_selects_a_most_frequent_terminator : forall c t,
+  (NlAuto.cnt c t <= NlAuto.cnt c (NlAuto.select_le SAuto c))%nat.
+Proof. exact choose_auto_is_most_frequent. Qed.
+Print Assumptions C08_auto_selects_a_most_frequent_terminator.
+
+Theorem C08_fixed_setting_ignores_the_input : forall c,
+  NlAuto.select_le SLf c = NlAuto.LF /\ NlAuto.select_le SCrlf c = NlAuto.CRLF /\ NlAuto.select_le SCr c = NlAuto.CR.
+Proof. exact choose_fixed. Qed.
+Print Assumptions C08_fixed_setting_ignores_the_input.
+
+(** for EVERY text given as lines with their terminators (any mixture; the one ambiguous shape - a CR-terminated line
+    followed by an empty LF-terminated one, which IS a CRLF - excluded): the census counts the lines per terminator,
+    and a strict majority terminator is the one selected *)
+Theorem C08_census_counts_lines : forall ls t,
+  Forall (fun x => line_ok (fst x)) ls -> unamb ls ->
+  NlAuto.cnt (NlAuto.census_of (joinm ls)) t = count_le t ls.
+Proof. exact scan_joinm. Qed.
+Print Assumptions C08_census_counts_lines.
+
+Theorem C08_auto_follows_the_majority : forall ls t,
+  Forall (fun x => line_ok (fst x)) ls -> unamb ls ->
+  (forall u, u <> t -> (count_le u ls < count_le t ls)%nat) ->
+  NlAuto.select_le SAuto (NlAuto.census_of (joinm ls)) = t.
+Proof. exact auto_on_mixed_text. Qed.
+Print Assumptions C08_auto_follows_the_majority.
+
+(** converting all terminators of a non-empty text to t makes auto select t *)
+Theorem C08_auto_after_conversion : forall t (ls : list (list Z * le)),
+  ls <> [] -> Forall (fun x => line_ok (fst x)) ls ->
+  NlAuto.select_le SAuto (NlAuto.census_of (joinm (map (fun x => (fst x, t)) ls))) = t.
+Proof. exact auto_after_conversion. Qed.
+Print Assumptions C08_auto_after_conversion.
